@@ -8,7 +8,7 @@
  * names, coefficients, logical column, nonzero count) + representation invariant + the conditional contract
  * C05 needs: cache_ok only if every deleted row was basic with pi <= 0 and the cached pi/slack are the survivors
  * in order; basis_ok only if every deleted row (column) was basic (non-basic).
- * On an invalid index: non-zero, nothing changed.  BOUND: NS = 2, NR = 2, at most 2 distinct indices deleted. */
+ * On an invalid index: non-zero, nothing changed.  BOUND: NS = 2, NR = 2, at most 2 indices deleted (possibly the same one twice). */
 #include "lib_contracts.h"
 struct qsv_ghost qsv_g;
 int g_sinfo_freed, g_load_calls;
@@ -120,11 +120,11 @@ void harness(void)
 			for (r = 0; r < NR; r++) { piv[r] = qsv_nondet_payload(); slv[r] = qsv_nondet_payload(); qsv_setnum(C->pi[r], piv[r]); qsv_setnum(C->slack[r], slv[r]); } }
 	}
 	num = pick(0, 2); del[0] = pick(0, NR + 1) - 1; del[1] = pick(0, NR + 1) - 1;
-	if (num == 2) ASSUME(del[0] != del[1]);		/* the list names distinct rows / columns */
+	if (num == 2 && del[0] == del[1]) valid = 0;	/* a row / column listed twice is an invalid argument (the counts would be reduced twice for one deletion) */
 #if defined(FN_delrows)
 	for (i = 0; i < 2; i++) if (i < num && (del[i] < 0 || del[i] >= NR)) valid = 0;
 	rv = mpq_ILLlib_delrows(lp, B, C, num, del, &bok, &cok);
-	ASSERT((rv == 0) == valid, "C07: accepted iff every listed row index is in range");
+	ASSERT((rv == 0) == valid, "C07: accepted iff every listed row index is in range and no row is listed twice");
 	if (rv != 0) { check_wf(NC, NR); for (r = 0; r < NR; r++) ASSERT(NUMV(O->rhs[r]) == rhsv[r] && O->sense[r] == sensev[r] && O->rownames[r] == rname[r], "C07: a rejected deletion leaves the rows untouched"); }
 	else {
 		int keep[NR], newi[NR], nk = 0, gone[NR];
@@ -160,7 +160,7 @@ void harness(void)
 #elif defined(FN_delcols)
 	for (i = 0; i < 2; i++) if (i < num && (del[i] < 0 || del[i] >= NS)) valid = 0;
 	rv = mpq_ILLlib_delcols(lp, B, num, del, &bok);
-	ASSERT((rv == 0) == valid, "C07: accepted iff every listed index names a STRUCTURAL column (0 <= index < number of columns the user created)");
+	ASSERT((rv == 0) == valid, "C07: accepted iff every listed index names a STRUCTURAL column (0 <= index < number of columns the user created) and no column is listed twice");
 	if (rv != 0) { check_wf(NC, NR); ASSERT(O->nstruct == NS && O->colnames[0] == cname[0] && O->colnames[1] == cname[1] && O->structmap[0] == smap[0] && O->structmap[1] == smap[1] && (!B || B->nstruct == NS), "C07: a rejected deletion leaves the columns (and the basis) untouched"); }
 	else {
 		int keep[NS], newj[NS], nk = 0;
